@@ -22,7 +22,7 @@
 //	tag     generator name and, when known by construction, the expected outcome
 //
 // Observation: badopts | rej | ok typ=..;iss=..;sub=..;jti=..;aud=..;exp=..;nbf=..;iat=..;pl=<canonical payload>
-// (J: prefixed with priv=refused; ; E: rawerr | signerr | tok h=..;p=..;sig=1;mut=rej;<verify result>).
+// (J: prefixed with "priv=refused jwk=<alg.kid,...> "; E: rawerr | signerr | tok h=..;p=..;sig=1;mut=rej;<verify result>).
 package c09
 
 import (
@@ -34,6 +34,7 @@ import (
 
 	"github.com/tink-crypto/tink-go/v2/jwt"
 	"github.com/tink-crypto/tink-go/v2/verifharness/hx"
+	spb "google.golang.org/protobuf/types/known/structpb"
 )
 
 func init() {
@@ -260,9 +261,9 @@ func verifierOf(prim string, keys []kd, viaJWK bool) (verifyFn, string, error) {
 			return nil, "", err
 		}
 		if _, err := jwt.JWKSetFromPublicKeysetHandle(priv); err == nil {
-			note = "priv=EXPORTED;"
+			note = "priv=EXPORTED "
 		} else {
-			note = "priv=refused;"
+			note = "priv=refused "
 		}
 		pub, err := priv.Public()
 		if err != nil {
@@ -272,6 +273,7 @@ func verifierOf(prim string, keys []kd, viaJWK bool) (verifyFn, string, error) {
 		if err != nil {
 			return nil, "", fmt.Errorf("jwk export: %v", err)
 		}
+		note += "jwk=" + jwkShape(js) + " "
 		if h, err = jwt.JWKSetToPublicKeysetHandle(js); err != nil {
 			return nil, "", fmt.Errorf("jwk import: %v", err)
 		}
@@ -281,6 +283,24 @@ func verifierOf(prim string, keys []kd, viaJWK bool) (verifyFn, string, error) {
 		return nil, "", err
 	}
 	return v.VerifyAndDecode, note, nil
+}
+
+// jwkShape: the exported JWK set as  alg.kid,alg.kid,...  (kid: hex or ~).
+func jwkShape(js []byte) string {
+	st := &spb.Struct{}
+	if err := st.UnmarshalJSON(js); err != nil {
+		return "!"
+	}
+	var out []string
+	for _, k := range st.GetFields()["keys"].GetListValue().GetValues() {
+		f := k.GetStructValue().GetFields()
+		kid := "~"
+		if v, ok := f["kid"]; ok {
+			kid = hx.H([]byte(v.GetStringValue()))
+		}
+		out = append(out, f["alg"].GetStringValue()+"."+kid)
+	}
+	return strings.Join(out, ",")
 }
 
 func verifyObs(vf verifyFn, o vo, tok string) string {
@@ -467,7 +487,9 @@ func class(in, obs string) string {
 		res = obs[:i]
 	}
 	if strings.HasPrefix(res, "priv=") {
-		res = strings.SplitN(strings.SplitN(obs, ";", 2)[1], " ", 2)[0]
+		if p := strings.SplitN(obs, " ", 4); len(p) >= 3 {
+			res = p[2]
+		}
 	}
 	if f[1] == "E" && strings.HasPrefix(obs, "tok ") {
 		j := strings.Index(obs, "mut=")
